@@ -109,9 +109,12 @@ def _claim_tool() -> None:
 class LineTracer:
     """Counts pre-emptible line events of the calling thread; raises SimAbort at event abort_at."""
 
-    def __init__(self, abort_at: Optional[int] = None, trace_lark: bool = False) -> None:
+    def __init__(self, abort_at: Optional[int] = None, trace_lark: bool = False,
+                 no_abort_in: Tuple[str, ...] = ()) -> None:
         self.ff = FrameFilter(trace_lark)
         self.abort_at = abort_at
+        # functions in which no abort is injected (the abort is delayed to the next line outside)
+        self.no_abort_in = no_abort_in
         self.steps = 0
         self.fired_site: Optional[str] = None
         self._ident = 0
@@ -123,7 +126,10 @@ class LineTracer:
         if threading.get_ident() != self._ident:
             return None
         self.steps += 1
-        if self.abort_at is not None and self.steps == self.abort_at:
+        if self.abort_at is not None and self.steps >= self.abort_at:
+            if code.co_qualname in self.no_abort_in:
+                return None
+            self.abort_at = None
             self.fired_site = site_of(code, line, tag)
             raise SimAbort(self.fired_site)
         return None
